@@ -96,6 +96,15 @@ def r_eq(mod, rep, R='R13.2'):
         # a str is never an instance of the class: rows claiming both are not possible inputs
         cons = lambda sigma: not (sigma.get(is_str[1], False) and sigma.get(is_cls[1], False)) if is_str[0] == 'atom' and is_cls[0] == 'atom' else True
         ok, detail = bf.matches(fn, bf.ITE(is_str, text_eq, bf.AND(is_cls, same)), cons, inline_also=('items', 'values', 'keys'))
+        if not ok and base != 'Category':
+            # the same comparison with a text operand parsed in place (`other = parse(other) if isinstance(other, str)
+            # else other`, then the class / field tests on that value) instead of re-dispatching `self == parse(other)`
+            P_ = ('call', A(N('Feature'), 'parse'), (N(o),), ())
+            is_cls_p = bf.T(('call', N('isinstance'), (P_, N(name)), ()))
+            same_p = bf.AND(*[bf.T(('cmp', '==', A(N('self'), f), A(P_, f))) for f in fields])
+            ok2, detail2 = bf.matches(fn, bf.ITE(is_str, bf.AND(is_cls_p, same_p), bf.AND(is_cls, same)), cons, inline_also=('items', 'values', 'keys'))
+            if ok2:
+                ok, detail = ok2, detail2 + '; text operand parsed in place'
         rep.check(ok, R, w, name + ':eq:fields',
                   '%s equality: a str compares with %s, another class is unequal, the same class compares exactly the declared (hashed) fields %s (%s)'
                   % (name, 'the canonical text str(self)' if base == 'Category' else 'the parsed feature', fields, detail),
@@ -192,7 +201,9 @@ def r_clear(mod, rep, R='R13.4'):
     ok = len(lam) == 1 and len(lam[0].args.args) == 2
     if ok:
         a, b = [x.arg for x in lam[0].args.args]
-        ok = src(lam[0].body).replace(' ', '') == 'Functor(%s,self.slash,%s)' % (a, b) and \
+        body_ = src(lam[0].body).replace(' ', '')
+        ok = body_ in ('Functor(%s,self.slash,%s)' % (a, b), 'replace(self,left=%s,right=%s)' % (a, b), 'dataclasses.replace(self,left=%s,right=%s)' % (a, b),
+                       'replace(self,right=%s,left=%s)' % (b, a), 'Functor(left=%s,slash=self.slash,right=%s)' % (a, b)) and \
             any('property' in src(d) for d in fn.decorator_list)
     rep.check(ok, R, w, 'Functor:functor', 'x.functor(l, r) builds Functor(l, x.slash, r)', 'Functor.functor is %s' % (src(lam[0]) if lam else '?'))
     # the slash operators used throughout the grammars
